@@ -323,12 +323,12 @@ func c05Invariants(prev, cur *c05Dump, rec *c05BlockRec) []string {
 // ---------- generator ----------
 
 type c05Gen struct {
-	r    *rng
-	c    *c05Chain
-	run  *c05Runner
-	ops  []c05Op
-	snap *c05Dump // storage at the last block boundary: steers the choice of operands (never the outcome)
-	notary bool   // the history designates P2PNotary nodes and sends transactions with the NotaryAssisted attribute
+	r      *rng
+	c      *c05Chain
+	run    *c05Runner
+	ops    []c05Op
+	snap   *c05Dump // storage at the last block boundary: steers the choice of operands (never the outcome)
+	notary bool     // the history designates P2PNotary nodes and sends transactions with the NotaryAssisted attribute
 }
 
 func (g *c05Gen) emit(op c05Op) error {
@@ -786,7 +786,7 @@ func runC05(args []string) error {
 	co := newCaseOut(cf.out, "Harness.C05", "Z",
 		"random block histories on a real neotest chain (6-member committee, 4 validators, Notary active): NEO/GAS transfers incl. self, zero, over-balance, "+
 			"to contracts with/without/refusing onNEP17Payment and to natives, votes/unvotes, candidate (un)registration incl. by GAS payment, claims, fee burning, "+
-			"committee rewards across epochs, notary deposits/withdrawals, faulting and unwitnessed transactions, committee settings, Policy block/unblock; "+
+			"committee rewards across epochs, notary deposits/withdrawals, P2PNotary designations and NotaryAssisted transactions (sent by the Notary contract and paid from a deposit, or by the payer), faulting and unwitnessed transactions, committee settings, Policy block/unblock; "+
 			"one case = one history (up to 30 blocks in quick), every block boundary is evaluated; non-trivial = at least one successful vote, one candidate change, "+
 			"one failed/faulted transaction and one epoch boundary; distinct by Coq term")
 	co.shard = 4
